@@ -814,6 +814,23 @@ def U4_frontier_init_and_progress(ctx):
                 bad.append((ev[-1], 'advance returns although its last scan found newly executed transactions (their completion is never published)'))
     ctx.ob('U4', g, 'advance-publishes-progress-and-terminates', n_ret >= 1 and n_pub >= 1 and not bad, '; '.join(sorted({f'{site(g, e)} {w}' for e, w in bad})[:3]), site=g.loc(g.b['lo']),
            what='advance(): scan the contiguous executed run; no progress ⇒ return; progress ⇒ fetch_max(end) and rescan from max(previous frontier, end)')
+    # every flag that is read lies inside the block: `i < executed.len()` is established before `executed[i]` is touched
+    badi = []
+    n_idx = 0
+    for meth in ('advance', 'current'):
+        m_ = ctx.method('ExecutionFrontier', meth)
+        for p in [q for q in m_.paths(max_visits=3) if q.end in ('return', 'cut')]:
+            for i, e in enumerate(p.events):
+                if e.kind == 'call' and callee_matches(e.d['callee'], '::load') and mentions_field(e.d['args'][0], 'ExecutionFrontier.executed'):
+                    ix = [c for c in calls_in(e.d['args'][0]) if c[1].endswith('::index') and mentions_field(c[2][0], 'ExecutionFrontier.executed')]
+                    if not ix:
+                        continue
+                    n_idx += 1
+                    idx = strip(ix[0][2][1])
+                    if not holds_rel(p, i, lambda op, l, r: op == 'Lt' and l == idx and has_call(r, '::len') and mentions_field(r, 'ExecutionFrontier.executed')):
+                        badi.append(f'{meth}: executed[{show(idx)[:30]}] is read without `< executed.len()` having been established')
+    ctx.ob('U4', 'ExecutionFrontier', 'flags-read-inside-the-block', n_idx >= 2 and not badi, '; '.join(sorted(set(badi))[:2]),
+           what='once every transaction has executed the frontier equals the block size; reading the flag at that index panics the worker (and with it the run)')
     h = ctx.method('SchedulerContext', 'rewind_validation_to')
     bad = []
     n = 0
